@@ -77,7 +77,9 @@ func (t *CodeScanner) GetAllTokens() ([]*CodeToken, error) {
 	for t.err == nil && !t.done {
 		t.NextToken()
 	}
-	if errors.Is(t.err, io.EOF) {
+	if errors.Is(t.err, io.EOF) && t.state == codeEnd {
+		// 只有读完结尾的引号之后遇到 EOF 才是正常结束
+		// 其他状态(字面量/代码块/字符串中)遇到 EOF 说明属性值不完整 需要报错
 		t.err = nil
 	}
 	return t.tokens, t.err
